@@ -35,6 +35,8 @@ def demo():
     out = []
     for c in cmds:
         c = re.split(r"\s{2,}\(|\s+\(=|\s+;\s*compare|\s+#", c)[0].strip()      # some metas append prose to the command
+        c = re.sub(r"git apply \S+\s*&&\s*", "", c)                               # the patch is applied / removed by this script
+        c = re.sub(r"\s*(&&|;)\s*git checkout -- \.", "", c)
         rc, o, e = sh(c, timeout=600)
         out.append({"cmd": c, "rc": rc, "out": norm(o)[-4000:], "err": norm(e)[-3000:]})
     return out
@@ -55,7 +57,7 @@ if rc == 0:
         res["demo_differs"] = [c != m for c, m in zip(clean, mutant)]
         res["clean"], res["mutant_run"] = clean, mutant
         rc, o, e = sh("cargo nextest run --workspace --no-fail-fast --test-threads 8 --offline 2>&1 | tail -400")
-        summ = re.search(r"(\d+) tests run: (\d+) passed(?: \(\d+ slow\))?, (\d+) failed", o)
+        summ = re.search(r"(\d+) tests run: (\d+) passed(?: \([^)]*\))?, (\d+) failed", o)
         fails = sorted(set(re.findall(r"FAIL \[[^\]]*\] (?:\(\S+\) )?(\S+ \S+)", o)))
         res["tests"] = {"summary": summ.group(0) if summ else o[-500:], "failed": fails}
         res["tests_ok"] = bool(summ) and summ.group(2) == "546" and summ.group(3) == "1" and all("number_long_decimal" in f for f in fails)
